@@ -73,7 +73,8 @@ def s_case(draw, quick=True):
     return {"N": N, "kind": draw(st.sampled_from(["gauss-train", "nrz-train", "lowpass-random", "gauss-train"])), "seed": draw(st.integers(0, 2 ** 31 - 1)),
             "sps": draw(st.sampled_from([8, 16, 32])), "R": draw(st.sampled_from([2.5e9, 10e9, 25e9])), "logp": draw(st.floats(-4, np.log10(0.5))),
             "L": draw(st.floats(1, 100)), "alpha": draw(st.one_of(st.just(0.0), st.floats(0, 0.5), st.floats(0.05, 0.5))),
-            "mode": draw(st.sampled_from(["nlse", "nlse", "nlse", "nlse", "spm", "spm", "linear", "any", "b3only", "b2only"])),
+            "mode": draw(st.sampled_from(["nlse", "nlse", "nlse", "nlse", "spm", "spm", "linear", "any", "b3only", "b2only", "weak", "weak"])),
+            "weaklogp": draw(st.floats(-12, -4)),
             "b2": draw(st.floats(-25, 25)), "b3": draw(st.one_of(st.just(0.0), st.just(0.0), st.floats(-0.2, 0.2))), "gamma": draw(st.floats(0.05, 5)),
             "phis": sorted({round(10 ** draw(st.floats(lo, -1)), 6) for _ in range(3)} | {0.1 if quick else 0.05}, reverse=True),
             "layout": draw(st.sampled_from(["1pol", "1pol", "2pol-yempty", "2pol-copy", "2pol-indep"])), "lead": draw(st.sampled_from(["none", "none", "zeros", "weak"])),
@@ -114,7 +115,8 @@ def make_field(c):
         f = fftfreq(N)
         X[np.abs(f) > 1 / 8] = 0
         a = ifft(X) * np.exp(1j * rs.uniform(0, 6))
-    a = a / max(np.max(np.abs(a)), 1e-300) * np.sqrt(10 ** c["logp"])
+    logp = c["weaklogp"] if c.get("mode") == "weak" and "weaklogp" in c else c["logp"]       # "weak": received-signal levels, pW .. 0.1 mW
+    a = a / max(np.max(np.abs(a)), 1e-300) * np.sqrt(10 ** logp)
     if c["lead"] == "zeros":
         a = a.copy()
         a[: 2 + rs.randint(0, 4)] = 0.0
@@ -165,7 +167,7 @@ def e_case(c):
         L = max(L, 50.0)
     elif mode == "b2only":
         b3 = 0.0
-    if gamma * ppk * L > 10 or (gamma > 0 and gamma * ppk * L < 0.05):
+    if mode != "weak" and (gamma * ppk * L > 10 or (gamma > 0 and gamma * ppk * L < 0.05)):
         gamma = min(5.0, c["nl_target"] / (ppk * L))          # keep the total nonlinear phase within the quantifier (<= 10 rad) and visible
     phinl = gamma * ppk * L
     layout = c["layout"]
